@@ -2844,6 +2844,12 @@ class Engine(object):
         if name == 'get':
             k = args[0]
             if is_sym(k):
+                # a symbolic string looked up in a dict with concrete string keys: one path per key, one for "none of them"
+                if isinstance(k, SStr) and all(isinstance(x, str) for x in d.val):
+                    for x in list(d.val):
+                        if self.branch(SBool(k.t == z3.StringVal(x))):
+                            return d.val[x]
+                    return args[1] if len(args) > 1 else None
                 raise Unsupported('symbolic key')
             return d.val.get(k, args[1] if len(args) > 1 else None)
         if name in ('keys', 'values', 'items'):
